@@ -42,6 +42,13 @@ def gen_cases(tier, seed):
             "cfg": {"out": r.choice(["all", "all", "sinks", "sinks", "struct", "node"])},
         })
     out.extend(preempt.gen_descs(tier, seed, ID))  # deterministic single-preemption enumeration (vmon/preempt.py)
+    for i in range(n // 8):
+        # runs WITH a registry: the dependencies of a call that executes are the same (followed through everything that executes or is rebuilt
+        # in the run; an up-to-date stored value is read from its store and cuts the path)
+        s = env.seed_for(seed, ID, tier, "registry", i)
+        r = random.Random(env.seed_for(s, "descriptor"))
+        out.append({"seed": s, "mode": "registry", "n": r.randint(3, 20), "W": r.choice([2, 3, 4, 8]), "sched": r.choice(["default", "random"]),
+                    "perturb": r.choice(["line", "instr", "none"]), "steps": r.randint(1, 4)})
     for i in range(n // 5):
         # k calls finishing together -> literal -> d, and a slow e -> d: a literal processed twice (lost atomicity of decrement+test)
         # releases d while e is still running. Literals are the only nodes that can be processed twice without failing.
@@ -112,7 +119,54 @@ def contended_joins(ir, H):
     return joins, multi
 
 
+def run_registry(desc):
+    from vmon import history, ir as irmod, regmodel
+
+    rng = random.Random(desc["seed"])
+    rp = regmodel.gen_regplan(rng, desc["n"])
+    S = regmodel.Session(rp, desc["seed"])
+    H, ir = S.H, S.ir
+    calls = {n.id for n in ir.nodes if n.kind == "call"}
+    bad = None
+    checked = 0
+    for step in range(desc["steps"]):
+        if step:
+            ps = [i for i in S.reg if rp.role[i] == "psrc"]
+            dl = [i for i in S.reg if rp.role[i] in ("stored", "dsrc", "slit")]
+            if ps and rng.random() < 0.5:
+                i = rng.choice(ps)
+                S.src_version[i] += 1
+                S.stores[i].set_content(irmod.Val(("src", i), S.src_version[i]))
+            elif dl:
+                S.delete(rng.choice(dl))
+        out_ids = history.choose_out(rng, S, rng.choice(["all", "some", "sinks", "one"]))
+        exp = S.expect(out_ids, None)
+        res, exc = S.run(out_ids, W=desc["W"], sched=desc["sched"], perturb=desc["perturb"], seed=desc["seed"] + step)
+        if exc is not None:
+            return {"status": "inconclusive", "detail": f"registry run raised {exc!r}"}
+        ended = set()
+        for seq, kind, key, tid, extra in H.events:
+            if kind == "end":
+                ended.add(key)
+            elif kind == "start":
+                checked += 1
+                missing = (S.eff_anc(exp, key) & calls) - ended
+                if missing:
+                    bad = (f"[registry run, step {step}] call n{key} started at seq {seq} before n{sorted(missing)[:5]}, which it depends on and which execute(s) in "
+                           f"this run, had finished")
+                    break
+        if bad:
+            break
+    res_ = {"status": "ok", "counters": {"registry_runs": desc["steps"], "starts_checked": checked, "registry_starts_checked": checked}, "nontrivial": checked > 0,
+            "sig": hashlib.sha1(("\n".join(S.describe(200)) + f"|reg|{desc['W']}|{desc['steps']}").encode()).hexdigest()[:16]}
+    if bad:
+        res_.update(status="violation", detail=bad, mechanism="early-start", witness={"plan": S.describe(200), "history": H.compact_history(600)})
+    return res_
+
+
 def run_case(desc):
+    if desc.get("mode") == "registry":
+        return run_registry(desc)
     if desc.get("mode") == "preempt1":
         return preempt.enumerate_case(desc, lambda R, ir: check_history(ir, R.H)[1])
     if desc.get("mode") == "hubrace":
